@@ -6,6 +6,7 @@ From JB Require Import Constants Bytes Utf8 Num Value Codec Decimal JsonText Ord
   Render Serde Path PathSem PathParse Dispatch Walk CompareWalk ComparableWalk.
 From JB Require Import RenderWalk.
 From JB Require Import SelWalk.
+From JB Require Import SelSt.
 From JB Require Import CastWalk.
 From JB Require Import PathSafe.
 From JB Require Import SerdeWalk.
@@ -40,4 +41,5 @@ Extraction "model.ml"
   num_cmp_rs_res num_eqb_rs_res num_cmp_rs num_eqb_rs
   concat_st delete_by_name_st delete_by_index_st array_insert_st object_insert_st object_delete_st object_pick_st
   strip_nulls_st delete_by_keypath_st array_distinct_st array_intersection_st array_except_st
+  select_st get_by_path_st get_by_path_first_st get_by_path_array_st
   run_b.
